@@ -629,6 +629,82 @@ fn check_psbt_satisfier_locks(rep: &mut Report, case: u64, s: &Setup, psbt: &Psb
     }
 }
 
+/// `update_output_with_descriptor` on an output paying to the same descriptor must record the
+/// same scripts, key origins and taproot data as the (model-checked) input updater did.
+fn check_output_update(rep: &mut Report, case: u64, s: &Setup, psbt: &Psbt, i: usize) {
+    let ip = &s.inputs[i];
+    let tx = Transaction {
+        version: transaction::Version(2),
+        lock_time: absolute::LockTime::ZERO,
+        input: vec![TxIn { previous_output: OutPoint::null(), script_sig: ScriptBuf::new(), sequence: Sequence::MAX, witness: Witness::new() }],
+        output: vec![
+            TxOut { value: Amount::from_sat(1_000), script_pubkey: ScriptBuf::from_bytes(vec![0x51]) },
+            TxOut { value: Amount::from_sat(2_000), script_pubkey: ScriptBuf::from_bytes(ip.target.spk.clone()) },
+        ],
+    };
+    let mut p2 = match Psbt::from_unsigned_tx(tx) {
+        Ok(p) => p,
+        Err(_) => return,
+    };
+    rep.eval();
+    let d = &ip.desc;
+    let r = guarded(std::panic::AssertUnwindSafe(|| (p2.update_output_with_descriptor(1, d).is_ok(), p2.clone().update_output_with_descriptor(0, d).is_ok(), p2.clone().update_output_with_descriptor(2, d).is_ok())));
+    match r {
+        Err(m) => rep.violation(case, format!("C14:panic:update_output:{}", norm_loc(&last_panic_loc())), format!("{} on {}", m, ip.case.desc)),
+        Ok((ok, wrong_spk, out_of_range)) => {
+            let by_inp = &psbt.inputs[i];
+            let o = &p2.outputs[1];
+            let mut bad = vec![];
+            if !ok {
+                bad.push("refused an output that pays to the descriptor".to_string());
+            }
+            if wrong_spk {
+                bad.push("accepted an output with another scriptPubKey".to_string());
+            }
+            if out_of_range {
+                bad.push("accepted an output index out of range".to_string());
+            }
+            if ok {
+                if o.redeem_script != by_inp.redeem_script {
+                    bad.push("redeem_script differs from the input updater".into());
+                }
+                if o.witness_script != by_inp.witness_script {
+                    bad.push("witness_script differs from the input updater".into());
+                }
+                if o.bip32_derivation != by_inp.bip32_derivation {
+                    bad.push("bip32_derivation differs from the input updater".into());
+                }
+                if o.tap_internal_key != by_inp.tap_internal_key {
+                    bad.push("tap_internal_key differs from the input updater".into());
+                }
+                if o.tap_key_origins != by_inp.tap_key_origins {
+                    bad.push("tap_key_origins differs from the input updater".into());
+                }
+                // the output's tap tree has exactly the leaves the input lists as tap_scripts
+                let mut in_leaves: Vec<(usize, Vec<u8>)> = by_inp.tap_scripts.iter().map(|(cb, (sc, _))| (cb.merkle_branch.len(), sc.to_bytes())).collect();
+                let mut out_leaves: Vec<(usize, Vec<u8>)> = o
+                    .tap_tree
+                    .as_ref()
+                    .map(|t| t.script_leaves().map(|l| (l.merkle_branch().len(), l.script().to_bytes())).collect())
+                    .unwrap_or_default();
+                // identical sibling leaves share one control block: compare as sets
+                in_leaves.sort();
+                in_leaves.dedup();
+                out_leaves.sort();
+                out_leaves.dedup();
+                if in_leaves != out_leaves {
+                    bad.push(format!("tap_tree has {} leaves, the input updater recorded {} tap_scripts (depth, script)", out_leaves.len(), in_leaves.len()));
+                }
+            }
+            if bad.is_empty() {
+                rep.count("output-update-consistent");
+            } else {
+                rep.violation(case, format!("C14:update-output-fields:{:?}:{}", ip.case.kind, bad[0].split(' ').take(2).collect::<Vec<_>>().join("-")), format!("update_output_with_descriptor({}): {}", ip.case.desc, bad.join("; ")));
+            }
+        }
+    }
+}
+
 pub fn run(cfg: &RunCfg, rep: &mut Report) {
     let world = World::new(cfg.seed);
     let total = cfg.n_cases(12_000, 300_000);
@@ -802,6 +878,7 @@ pub fn run(cfg: &RunCfg, rep: &mut Report) {
                     check_plan_update(rep, i, &world, &s, &psbt, *k);
                     check_sighash_msg(rep, i, &world, &s, &psbt, *k);
                     check_psbt_satisfier_locks(rep, i, &s, &psbt, *k);
+                    check_output_update(rep, i, &s, &psbt, *k);
                 }
                 (Op::Update(k), Outcome::Err(_)) => {
                     rep.violation(i, "C14:update-refused".into(), format!("update_input_with_descriptor({}) refused a matching utxo: {}", k, describe(&s, &hist)));
